@@ -48,3 +48,7 @@ Print Assumptions C25_status_etcd_node_expires.
 Theorem C25_workload_status_api : workload_status_api_stmt.
 Proof. exact workload_status_api_holds. Qed.
 Print Assumptions C25_workload_status_api.
+
+Theorem C25_status_redis_node_expires_partial : C25_redis_node_expires_partial_stmt.
+Proof. exact C25_redis_node_expires_partial_holds. Qed.
+Print Assumptions C25_status_redis_node_expires_partial.
